@@ -2,7 +2,7 @@
 // interpreted IR of lean/Golib/Udp/GoIR.lean (mode "goir", output lean/Golib/Gen/UdpGoFns.lean):
 //
 //	util/paramtext/ParamKV.go      indexFold, ToPair, NewParamKVSeperate, ExistsKey, ToString, ToStringStr
-//	util/stringutil/StringUtil.go  Truncate, ParseInt32, ParseInt64, ParseStringZeroToEmpty
+//	util/stringutil/StringUtil.go  Truncate, ParseInt32, ParseInt64, ParseStringZeroToEmpty, ArrayInt16ToString
 //
 // The translator only renames (variables and receiver fields become numbers, in order of first
 // appearance) and maps library calls to the IR's builtins; it recognises no idioms.  A construct it
@@ -29,6 +29,8 @@ type gfn struct {
 	recv   map[string]bool // identifiers that denote the receiver object
 	fields map[string]int
 	funcs  map[string]int // program functions by name
+	strSl  map[string]bool // locals made by make([]string, n)
+	intSl  map[string]bool // parameters of an integer slice type
 }
 
 func (g *gfn) v(name string) int {
@@ -133,7 +135,8 @@ func (g *gfn) e(x ast.Expr) string {
 	case *ast.CallExpr:
 		name := src(n.Fun)
 		bi := map[string]string{"len": "len", "strings.Split": "split", "strings.TrimSpace": "trimSpace", "strings.EqualFold": "equalFold",
-			"strings.ToLower": "toLower", "strings.Index": "index", "strconv.ParseInt": "parseInt", "int32": "toInt32", "int64": "toInt64"}
+			"strings.ToLower": "toLower", "strings.Index": "index", "strconv.ParseInt": "parseInt", "int32": "toInt32", "int64": "toInt64",
+			"strconv.Itoa": "itoa", "int": "toInt", "strings.Join": "join"}
 		if b, ok := bi[name]; ok {
 			return fmt.Sprintf("(.bi .%s %s)", b, g.es(n.Args))
 		}
@@ -141,6 +144,9 @@ func (g *gfn) e(x ast.Expr) string {
 			if _, ok := n.Args[0].(*ast.MapType); ok {
 				return "(.bi .makeMap .nil)"
 			}
+		}
+		if name == "make" && len(n.Args) == 2 && src(n.Args[0]) == "[]string" {
+			return fmt.Sprintf("(.bi .makeStrs %s)", g.es(n.Args[1:]))
 		}
 		if name == "new" && len(n.Args) == 1 {
 			return "(.bi .newObj .nil)"
@@ -229,7 +235,15 @@ func (g *gfn) s(st ast.Stmt) []string {
 					return nil
 				}
 			}
-			if ix, ok := n.Lhs[0].(*ast.IndexExpr); ok { // m[k] = v
+			if id, ok := n.Lhs[0].(*ast.Ident); ok { // b := make([]string, n)
+				if c, ok := n.Rhs[0].(*ast.CallExpr); ok && src(c.Fun) == "make" && len(c.Args) == 2 && src(c.Args[0]) == "[]string" {
+					g.strSl[id.Name] = true
+				}
+			}
+			if ix, ok := n.Lhs[0].(*ast.IndexExpr); ok { // m[k] = v   /   b[i] = v
+				if id, ok := ix.X.(*ast.Ident); ok && g.strSl[id.Name] {
+					return []string{fmt.Sprintf("(.idxSet (.var %d) %s %s)", g.v(id.Name), g.e(ix.Index), g.e(n.Rhs[0]))}
+				}
 				if m, ok := g.l(ix.X); ok {
 					return []string{fmt.Sprintf("(.mapSet %s %s %s)", m, g.e(ix.Index), g.e(n.Rhs[0]))}
 				}
@@ -291,7 +305,11 @@ func (g *gfn) s(st ast.Stmt) []string {
 		if !ok1 || !ok2 {
 			return unk
 		}
-		return []string{fmt.Sprintf("(.forRange %s %s %s\n      %s)", iv, vv, g.e(n.X), g.ss(n.Body.List))}
+		kind := "forRange"
+		if id, ok := n.X.(*ast.Ident); ok && g.intSl[id.Name] {
+			kind = "forRangeI"
+		}
+		return []string{fmt.Sprintf("(.%s %s %s %s\n      %s)", kind, iv, vv, g.e(n.X), g.ss(n.Body.List))}
 	case *ast.ForStmt:
 		// for i := a; X <= B; i++   /   X < B
 		as, ok := n.Init.(*ast.AssignStmt)
@@ -336,7 +354,7 @@ func goirMain(repo, out string) {
 		names []string // in call order: a function only calls functions listed before it
 	}{
 		{"paramKV", "util/paramtext/ParamKV.go", []string{"indexFold", "ToPair", "NewParamKVSeperate", "ExistsKey", "ToString", "ToStringStr"}},
-		{"stringutil", "util/stringutil/StringUtil.go", []string{"Truncate", "ParseInt32", "ParseInt64", "ParseStringZeroToEmpty"}},
+		{"stringutil", "util/stringutil/StringUtil.go", []string{"Truncate", "ParseInt32", "ParseInt64", "ParseStringZeroToEmpty", "ArrayInt16ToString"}},
 	}
 	var b strings.Builder
 	w := func(f string, a ...interface{}) { fmt.Fprintf(&b, f, a...) }
@@ -388,7 +406,8 @@ func goirMain(repo, out string) {
 				w("/-- %s: not found in %s -/\ndef %s.%s : Fn := { params := 0, body := .cons .unknown .nil }\n\n", n, sp.file, sp.group, n)
 				continue
 			}
-			g := &gfn{name: n, decl: fd, vars: map[string]int{}, recv: map[string]bool{}, fields: fields, funcs: map[string]int{}}
+			g := &gfn{name: n, decl: fd, vars: map[string]int{}, recv: map[string]bool{}, fields: fields, funcs: map[string]int{},
+				strSl: map[string]bool{}, intSl: map[string]bool{}}
 			for k, v := range funcs { // only earlier functions may be called
 				if v < funcs[n] {
 					g.funcs[k] = v
@@ -402,6 +421,9 @@ func goirMain(repo, out string) {
 				for _, nm := range p.Names {
 					g.v(nm.Name)
 					np++
+					if t := src(p.Type); t == "[]int16" || t == "[]int32" || t == "[]int64" || t == "[]int" {
+						g.intSl[nm.Name] = true
+					}
 				}
 			}
 			if fd.Type.Results != nil {
